@@ -93,7 +93,8 @@ Record FloatOps (F : Type) := mkFloatOps {
   f_fsum : list F -> F;            (* math.fsum: exactly rounded sum *)
   f_dom : libm_fn -> list F -> bool;   (* mathematical domain of a libm function (ideal instance);
                                           binary64 instance: always true, errors show as NaN *)
-  f_call : val F -> list (val F) -> val F   (* calling a Python function value (basis functions) *)
+  f_call : val F -> list (val F) -> val F;  (* calling a Python function value (basis functions) *)
+  f_repr : F -> string                      (* repr(float): shortest round-trip decimal *)
 }.
 
 Arguments f_of_Z {F} _ _.
@@ -123,6 +124,7 @@ Arguments f_rad2deg {F} _.
 Arguments f_fsum {F} _ _.
 Arguments f_dom {F} _ _ _.
 Arguments f_call {F} _ _ _.
+Arguments f_repr {F} _ _.
 
 Section Ops.
 Context {F : Type} (O : FloatOps F).
@@ -619,6 +621,95 @@ Definition str_meth (f : string -> string) (v : val) : val :=
   | VStr s => if is_ascii_str s then VStr (f s) else VErr Unsupported
   | VErr e => VErr e
   | _ => VErr AttributeError
+  end.
+
+(* str(int) *)
+Definition digit_char (d : Z) : ascii := ascii_of_N (Z.to_N (48 + d)).
+Fixpoint pos_digits (fuel : nat) (n : Z) (acc : string) : string :=
+  match fuel with
+  | 0%nat => acc
+  | S fuel' => if n <? 10 then String (digit_char n) acc
+               else pos_digits fuel' (n / 10) (String (digit_char (n mod 10)) acc)
+  end.
+Definition Z_to_string (z : Z) : string :=
+  let n := Z.abs z in
+  let s := pos_digits (S (Z.to_nat (Z.log2 n))) n EmptyString in
+  if z <? 0 then String "-" s else s.
+
+(* str(x) for the values that get formatted *)
+Definition py_str_of (v : val) : option string :=
+  match v with
+  | VInt z => Some (Z_to_string z)
+  | VFloat f => Some (f_repr O f)
+  | VStr s => Some s
+  | VBool true => Some "True"%string
+  | VBool false => Some "False"%string
+  | VNone => Some "None"%string
+  | _ => None
+  end.
+
+(* "..{}..{}..".format(a, b): successive {} are replaced by str(arg) *)
+Fixpoint fmt_go (t : string) (args : list val) : val :=
+  match t with
+  | EmptyString => VStr EmptyString
+  | String c r =>
+      match r with
+      | String c2 r2 =>
+          if (N.eqb (acode c) 123) && (N.eqb (acode c2) 125) then
+            match args with
+            | [] => VErr IndexError
+            | a :: args' =>
+                match a with VErr e => VErr e | _ =>
+                match py_str_of a with
+                | None => VErr Unsupported
+                | Some sa => match fmt_go r2 args' with
+                             | VStr rest => VStr (sa ++ rest)
+                             | other => other end
+                end end
+            end
+          else match fmt_go r args with VStr rest => VStr (String c rest) | other => other end
+      | EmptyString => VStr t
+      end
+  end.
+Definition py_format (t : val) (args : list val) : val :=
+  match t with
+  | VErr e => VErr e
+  | VStr s => match first_err args with Some e => VErr e | None => fmt_go s args end
+  | _ => VErr AttributeError
+  end.
+
+(* s.replace(a, b), non-overlapping, left to right; a non-empty *)
+Fixpoint str_prefix (p s : string) : option string :=
+  match p with
+  | EmptyString => Some s
+  | String c p' => match s with
+                   | String d s' => if Ascii.eqb c d then str_prefix p' s' else None
+                   | EmptyString => None end
+  end.
+Fixpoint str_replace_go (fuel : nat) (s a b : string) : string :=
+  match fuel with
+  | 0%nat => s
+  | S fuel' =>
+      match str_prefix a s with
+      | Some rest => (b ++ str_replace_go fuel' rest a b)%string
+      | None => match s with
+                | EmptyString => EmptyString
+                | String c r => String c (str_replace_go fuel' r a b)
+                end
+      end
+  end.
+Definition py_str_replace (s a b : val) : val :=
+  match s, a, b with
+  | VErr e, _, _ => VErr e
+  | _, VErr e, _ => VErr e
+  | _, _, VErr e => VErr e
+  | VStr s', VStr a', VStr b' =>
+      match a' with
+      | EmptyString => VErr Unsupported
+      | _ => VStr (str_replace_go (S (String.length s')) s' a' b')
+      end
+  | VStr _, _, _ => VErr TypeError
+  | _, _, _ => VErr AttributeError
   end.
 
 (* ---------------------------------------------------------------- objects *)
